@@ -242,13 +242,16 @@ func (fr *Frame) nativeCall(b *ssa.BasicBlock, st *State, name string, callee *s
 		fc.addFact("true", sEq(resv, sIte(ok, r, "0")))
 		return Val{IsAg: true, Typ: resT, Agg: []Val{{S: resv, Typ: pt}, {S: errv, Typ: resT.(*types.Tuple).At(1).Type()}}}, true
 	case "github.com/multiformats/go-multihash.Sum":
-		fr.trust("multihash.Sum(data, code, -1): fresh multihash bytes mhsum(data, code); error iff the code is unsupported")
+		fr.trust("multihash.Sum(data, code, -1): fresh multihash bytes mhsum(data, code); error iff the code is unsupported; the result decodes as a well-formed multihash with that code")
 		fr.specNative("mhsum")
 		fr.specNative("mhsupported")
+		fr.specNative("mhok")
+		fr.specNative("mhcode")
 		code := fr.scalar(args[1])
 		ok := sApp("u_mhsupported", code)
 		out := fr.newSliceFresh(st, types.Typ[types.Uint8], fc.freshConst("mhlen", "Int"), resT.(*types.Tuple).At(0).Type(), "mh")
 		fc.addFact("true", sEq(fr.bseqOf(st, out), sApp("u_mhsum", fr.bseqOf(st, args[0]), code)))
+		fc.addFact("true", sImp(ok, sAnd(sApp("u_mhok", sApp("u_mhsum", fr.bseqOf(st, args[0]), code)), sEq(sApp("u_mhcode", sApp("u_mhsum", fr.bseqOf(st, args[0]), code)), code))))
 		errv := fc.freshConst("mherr", "Int")
 		fc.addFact("true", sEq(sEq(errv, "0"), ok))
 		resv := fc.freshConst("mhres", "Int")
